@@ -12,6 +12,8 @@ from harness import oplevel, runner
 
 ERRNOS = ['EACCES', 'EPERM', 'EROFS', 'ENOSPC', 'EIO', 'ENAMETOOLONG', 'ENOENT', 'EBUSY', 'EXDEV', 'EEXIST', 'EMFILE']
 
+LONG = b'long-' + b'x' * 245      # <name>.trashinfo exceeds NAME_MAX: trash-put shortens the name (and always adds a suffix)
+
 PUT_SCENARIOS = {
     # name: (kinds per process, box kwargs)
     'race-create':   (['file', 'dir'], {}),
@@ -22,6 +24,7 @@ PUT_SCENARIOS = {
     'dangling-orphan': (['file', 'dir'], {'tdir_exists': True, 'pre_pay': [('t1', b'n', 'dlink'), ('t1', b'n_1', 'dlink')]}),
     'three':         (['file', 'dir', 'link'], {}),
     'volume':        (['dir', 'file'], {'src_vol': 'V1'}),
+    'long-names':    (['file', 'dir'], {'base': LONG, 'tdir_exists': True, 'pre_pay': [('t1', 'n1', 'file')], 'pre_info': [('t1', 'n2')]}),
 }
 
 SINGLE_SCENARIOS = {
@@ -39,6 +42,8 @@ SINGLE_SCENARIOS = {
     'fallback-file':   ('file', {'src_vol': 'V1', 'fallback': True}),
     'fallback-dir':    ('dir', {'src_vol': 'V1', 'fallback': True}),
     'fallback-link':   ('link', {'src_vol': 'V1', 'fallback': True}),
+    'long-first':      ('file', {'base': LONG}),
+    'long-orphan':     ('dir', {'base': LONG, 'tdir_exists': True, 'pre_pay': [('t1', 'n1', 'emptydir')]}),
 }
 
 
@@ -116,20 +121,24 @@ def baseline_ops(scen, seed=0, extra_shim=None):
 
 
 def run_crash(args):
-    scen, k, seed = args
+    """mode 'kill': the process dies (no handler runs) just before operation k; 'intr' / 'intr_after': it is interrupted
+    (Ctrl-C: KeyboardInterrupt, handlers and finally blocks run) just before operation k / when operation k returns"""
+    scen, k, seed = args[:3]
+    mode = args[3] if len(args) > 3 else 'kill'
     runner.prepare()
     kind, kw = SINGLE_SCENARIOS[scen]
     box = make_box([kind], kw, seed)
     try:
+        how = {'kill': dict(crash_at=k), 'intr': dict(intr_at=k), 'intr_after': dict(intr_after=k)}[mode]
         res = runner.run('trash-put', box.put_argv('p1'), os.path.join(box.root, 'cwd'), box.env(),
-                         shim_cfg=box.shim(crash_at=k), now=(2020, 1, 1, 0, 0, 0))
+                         shim_cfg=box.shim(**how), now=(2020, 1, 1, 0, 0, 0))
         creators = {}
         for e in res['trace']:
             oplevel.classify_creator(box, dict(e, p='p1'), creators)
         st = box.project(creators)
         last = [e for e in res['trace'] if 'seq' in e][-1:] or [{}]
-        killed = res['exit'] == 137
-        return {'scen': scen, 'k': k, 'killed': killed, 'exit': res['exit'],
+        killed = res['exit'] in (137, 130)
+        return {'scen': scen, 'k': k, 'mode': mode, 'killed': killed, 'exit': res['exit'],
                 'obs': {'state': st, 'done': {} if killed else {'p1': True},
                         'res': {} if killed else {'p1': 'ok' if res['exit'] == 0 else 'fail'}},
                 'at': [last[0].get('op'), last[0].get('raw')]}
@@ -145,8 +154,17 @@ def run_fault(args):
     kind, kw = SINGLE_SCENARIOS[scen]
     box = make_box([kind], kw, seed)
     try:
+        fl = []
+        for f in faults:
+            if f.get('env') == 'readonly-parent':
+                # the directory holding the entry cannot be modified (mode 0555, a sticky directory of another owner, ...):
+                # renaming the entry away, unlinking it and removing it all fail, for as long as the command runs
+                rel = os.path.relpath(os.fsdecode(box.sources['p1']), box.root)
+                fl.append({'match': {'ops': ['rename', 'unlink', 'rmdir'], 'exact': [rel]}, 'errno': f['errno'], 'sticky': True})
+            else:
+                fl.append(dict(f))
         res = runner.run('trash-put', box.put_argv('p1'), os.path.join(box.root, 'cwd'), box.env(),
-                         shim_cfg=box.shim(faults=[dict(f) for f in faults], budget=3000, nofault_ops=['access']),
+                         shim_cfg=box.shim(faults=fl, budget=3000, nofault_ops=['access']),
                          now=(2020, 1, 1, 0, 0, 0),
                          timeout=20)
         creators = {}
@@ -232,13 +250,16 @@ PURGE_SCENARIOS = {
     'restore-tree':  ('restore', ['1'], ['e2']),
     'restore-two':   ('restore', ['3,0'], ['e1', 'e4']),
 }
+# the same with e3 a symlink to an EXISTING directory outside the trash (it must be unlinked, never followed or "rmtree"d)
+for _k in ('empty-all', 'rm-all', 'restore-all'):
+    PURGE_SCENARIOS[_k + '@dirlink'] = PURGE_SCENARIOS[_k]
 
 
 class PurgeBox(object):
     """home trash with four entries: e1 file, e2 deep tree (restores across volumes), e3 link, e4 file on the other
     volume; two orphans (a file and a tree)"""
 
-    def __init__(self, uid=1000):
+    def __init__(self, uid=1000, link='dangling'):
         self.base = _tempfile.mkdtemp(prefix='vp-', dir=_world.SHM)
         self.root = os.path.join(self.base, 'w')
         self.uid = uid
@@ -254,6 +275,7 @@ class PurgeBox(object):
                      'e3': os.path.join(self.root, 'r', 'link-e3'), 'e4': os.path.join(self.root, 'm1', 'file-e4')}
         self.dates = {'e1': '2020-01-01T00:00:01', 'e2': '2020-01-01T00:00:02', 'e3': '2020-01-05T00:00:03', 'e4': '2020-01-05T00:00:04'}
         self.dig = {}
+        self.keep = None
         f = os.path.join(self.tdir, 'files')
         for e in ('e1', 'e2', 'e3', 'e4', 'o1', 'o2'):
             p = os.path.join(f, 'slot-' + e)
@@ -261,7 +283,16 @@ class PurgeBox(object):
                 with open(p, 'w') as fh:
                     fh.write('payload of %s' % e + 'x' * 3000)
             elif e == 'e3':
-                os.symlink('/nonexistent/target-of-e3', p)
+                if link == 'dir':
+                    keep = os.path.join(self.root, 'keep-dir')
+                    os.makedirs(os.path.join(keep, 'sub'))
+                    with open(os.path.join(keep, 'sub', 'precious'), 'w') as fh:
+                        fh.write('outside the trash')
+                    os.symlink(keep, p)
+                    self.keep = keep
+                    self.keep_dig = _world.digest_of_sub(_world.snapshot_sub(os.fsencode(keep)))
+                else:
+                    os.symlink('/nonexistent/target-of-e3', p)
             else:
                 os.makedirs(os.path.join(p, 'a', 'b'))
                 for i, q in enumerate(['x', 'a/y', 'a/b/z']):
@@ -293,6 +324,10 @@ class PurgeBox(object):
                               shim_cfg=self.shim(**shimkw), timeout=20)
         return runner.run('trash-' + cmd, list(args), os.path.join(self.root, 'cwd'), self.env(), shim_cfg=self.shim(**shimkw), timeout=20)
 
+    def outside_intact(self):
+        return self.keep is None or (os.path.isdir(self.keep) and
+                                     _world.digest_of_sub(_world.snapshot_sub(os.fsencode(self.keep))) == self.keep_dig)
+
     def project(self):
         info, pay, dest = {}, {}, {}
         for e in ('e1', 'e2', 'e3', 'e4', 'o1', 'o2'):
@@ -314,7 +349,7 @@ class PurgeBox(object):
 def purge_baseline(scen):
     runner.prepare()
     cmd, args, sel = PURGE_SCENARIOS[scen]
-    box = PurgeBox()
+    box = PurgeBox(link='dir' if scen.endswith('@dirlink') else 'dangling')
     try:
         res = box.run(cmd, args)
         ops = [e for e in res['trace'] if 'seq' in e]
@@ -328,7 +363,7 @@ def run_purge_crash(args):
     scen, k = args
     runner.prepare()
     cmd, argv, sel = PURGE_SCENARIOS[scen]
-    box = PurgeBox()
+    box = PurgeBox(link='dir' if scen.endswith('@dirlink') else 'dangling')
     try:
         res = box.run(cmd, argv, crash_at=k)
         killed = res['exit'] == 137
@@ -348,6 +383,7 @@ def run_purge_crash(args):
             # destinations reached before the kill must survive the recovery purge untouched
             o2['dest_kept'] = all(dest2[e] == dest[e] for e in dest)
         return {'scen': scen, 'k': k, 'killed': killed, 'at': [last[0].get('op'), last[0].get('raw')], 'after_kill': o1,
+                'outside_intact': box.outside_intact(),
                 'after_rerun': o2, 'rerun_exit': r2['exit'], 'rerun_err': r2['stderr'][-300:].decode('utf-8', 'replace')}
     finally:
         box.destroy()
@@ -358,7 +394,7 @@ def purge_state_trace(args):
     scen, permute_seed = args
     runner.prepare()
     cmd, argv, sel = PURGE_SCENARIOS[scen]
-    box = PurgeBox()
+    box = PurgeBox(link='dir' if scen.endswith('@dirlink') else 'dangling')
     try:
         import select as _select
         from harness import oplevel
@@ -392,6 +428,6 @@ def purge_state_trace(args):
                 os.close(fd)
             except OSError:
                 pass
-        return {'scen': scen, 'states': states, 'nops': len(ops), 'exit': res['exit']}
+        return {'scen': scen, 'states': states, 'nops': len(ops), 'exit': res['exit'], 'outside_intact': box.outside_intact()}
     finally:
         box.destroy()
